@@ -107,3 +107,27 @@ Definition cinit (n : nat) : list nodestate := replicate n (empty_set 2, ∅).
 (** The live documents a node serves: id -> (stamp, payload). *)
 Definition live_docs (x : nodestate) : list (N * (N * N)) :=
   omap (fun kv => match kv.2 with (t, Some p) => Some (kv.1, (t, p)) | _ => None end) (map_to_list x.2).
+
+(** ** [handle_consistency_distribution]: one request per selected node, successes counted
+       against the number of selected nodes. *)
+Inductive dist_result :=
+| DOk
+| DConsistencyFailure (responses required : nat).
+
+Definition distribute (sel : list nat) (acked : nat -> bool) : dist_result :=
+  let ok := length (filter (fun j => acked j = true) sel) in
+  if Nat.eqb ok (length sel) then DOk else DConsistencyFailure ok (length sel).
+
+(** The replicas a consistency level requires besides the issuer, in a cluster of [n]
+    members (one data centre): a majority counting the issuer for the quorum levels. *)
+Inductive level := LNone | LOne | LTwo | LThree | LQuorum | LLocalQuorum | LAll | LEachQuorum.
+
+Definition required (l : level) (n : nat) : nat :=
+  match l with
+  | LNone => 0
+  | LOne => 1
+  | LTwo => 2
+  | LThree => 3
+  | LQuorum | LLocalQuorum | LEachQuorum => n / 2
+  | LAll => n - 1
+  end.
